@@ -3,7 +3,8 @@
 //! DELTA_VERIF_SCHEDULE holds a comma-separated list of labels, a call blocks until its label is the
 //! next one due in that list (calls whose label does not occur in the remainder of the list pass
 //! straight through). Every call is appended to the file named by DELTA_VERIF_TRACE as one JSON
-//! object per line.
+//! object per line. DELTA_VERIF_DELAY="label:ms,..." makes the calling thread sleep for that long after
+//! it has passed the named ordering point (a slow thread; used only at points where no lock is held).
 use std::io::Write;
 use std::sync::{Condvar, Mutex};
 
@@ -59,6 +60,18 @@ pub fn sync(label: &str, value: &str) {
     }
     log(label, value);
     cvar.notify_all();
+    drop(s);
+    if let Ok(delays) = std::env::var("DELTA_VERIF_DELAY") {
+        for item in delays.split(',') {
+            if let Some((l, ms)) = item.split_once(':') {
+                if l == label {
+                    if let Ok(ms) = ms.parse::<u64>() {
+                        std::thread::sleep(std::time::Duration::from_millis(ms));
+                    }
+                }
+            }
+        }
+    }
 }
 
 fn log(label: &str, value: &str) {
